@@ -50,12 +50,12 @@ func load(root string) *loaded {
 		files, _ := filepath.Glob(filepath.Join(root, "harness", dir, "*.go"))
 		for _, f := range files {
 			b, _ := os.ReadFile(f)
-			overlay[filepath.Join("/repo/internal", virt, filepath.Base(f))] = b
+			overlay[filepath.Join(repoDir(), "internal", virt, filepath.Base(f))] = b
 		}
 	}
 	add("verifh", "verifh")
 	add("verifrt_sym", "verifrt")
-	cfg := &packages.Config{Mode: packages.LoadAllSyntax, Dir: "/repo", Overlay: overlay,
+	cfg := &packages.Config{Mode: packages.LoadAllSyntax, Dir: repoDir(), Overlay: overlay,
 		Env: append(os.Environ(), "GOFLAGS=-mod=mod", "GOPROXY=off", "GOSUMDB=off", "GOTOOLCHAIN=local")}
 	pkgs, err := packages.Load(cfg, "./internal/verifh")
 	if err != nil {
@@ -63,7 +63,7 @@ func load(root string) *loaded {
 		os.Exit(2)
 	}
 	if packages.PrintErrors(pkgs) > 0 {
-		fmt.Fprintln(os.Stderr, "ERROR: /repo (with harness overlay) does not type-check")
+		fmt.Fprintln(os.Stderr, "ERROR: "+repoDir()+" (with harness overlay) does not type-check")
 		os.Exit(2)
 	}
 	prog, spkgs := ssautil.AllPackages(pkgs, ssa.InstantiateGenerics)
@@ -107,9 +107,9 @@ func load(root string) *loaded {
 }
 
 func repoHead() string {
-	out, _ := exec.Command("git", "-C", "/repo", "rev-parse", "--short", "HEAD").Output()
+	out, _ := exec.Command("git", "-C", repoDir(), "rev-parse", "--short", "HEAD").Output()
 	h := strings.TrimSpace(string(out))
-	st, _ := exec.Command("git", "-C", "/repo", "status", "--porcelain").Output()
+	st, _ := exec.Command("git", "-C", repoDir(), "status", "--porcelain").Output()
 	if len(strings.TrimSpace(string(st))) > 0 {
 		h += "+dirty"
 	}
@@ -294,4 +294,14 @@ func prefault() {
 		keep = append(keep, b)
 	}
 	runtime.KeepAlive(keep)
+}
+
+// repoDir: the tree under verification: /repo, or the snapshot a background run was given (VP_RUN_REPO / VERIF_REPO).
+func repoDir() string {
+	for _, k := range []string{"VERIF_REPO", "VP_RUN_REPO"} {
+		if v := os.Getenv(k); v != "" {
+			return v
+		}
+	}
+	return "/repo"
 }
